@@ -1,0 +1,247 @@
+//go:build verif
+
+package dicescript
+
+import (
+	"sort"
+	"sync/atomic"
+	"unsafe"
+
+	"golang.org/x/exp/rand"
+)
+
+// Verification hooks (build tag "verif"). They only observe, or let a harness
+// answer for the environment (a die face); without the tag verif_nohooks.go
+// supplies empty stubs.
+
+// VerifRollHook, when set, is asked for every randomly rolled die (after the
+// sides==0 / min-mode / max-mode shortcuts of Roll). ok=false falls through to
+// the real generator.
+var VerifRollHook func(src *rand.PCGSource, sides IntType) (IntType, bool)
+
+// VerifStepHook, when set, is called before each dispatched VM instruction.
+var VerifStepHook func(ctx *Context, pc, top, blockDepth, fstrDepth, diceDepth, nDetails int)
+
+// VerifSharedHook, when set, is called right before an access to package-level
+// mutable state (name = variable name).
+var VerifSharedHook func(name string, write bool)
+
+func verifRoll(src *rand.PCGSource, sides IntType) (IntType, bool) {
+	if h := VerifRollHook; h != nil {
+		return h(src, sides)
+	}
+	return 0, false
+}
+
+func verifStep(ctx *Context, pc, top, blockDepth, fstrDepth, diceDepth, nDetails int) {
+	if h := VerifStepHook; h != nil {
+		h(ctx, pc, top, blockDepth, fstrDepth, diceDepth, nDetails)
+	}
+}
+
+func verifShared(name string, write bool) {
+	if h := VerifSharedHook; h != nil {
+		h(name, write)
+	}
+}
+
+// VerifOp is a read-only rendering of one bytecode instruction.
+type VerifOp struct {
+	T      int
+	Name   string
+	HasInt bool
+	Int    int64
+	HasStr bool
+	Str    string
+	Nil    bool     // operand is nil
+	Body   *VMValue // push.func / push.computed operand
+	Span   [2]int64 // mark.detail
+}
+
+var verifOpNames = map[CodeType]string{
+	typePushIntNumber: "push.int", typePushFloatNumber: "push.flt", typePushString: "push.str",
+	typePushArray: "push.arr", typePushDict: "push.dict", typePushRange: "push.range",
+	typePushComputed: "push.computed", typePushNull: "push.null", typePushThis: "push.this",
+	typePushGlobal: "push.global", typePushFunction: "push.func", typePushLast: "push.last",
+	typePushDefaultExpr: "push.def_expr", typeLoadFormatString: "ld.fs", typeLoadName: "ld",
+	typeLoadNameWithDetail: "ld.d", typeLoadNameRaw: "ld.raw", typeStoreName: "store",
+	typeStoreNameGlobal: "store.global", typeStoreNameLocal: "store.local", typeInvoke: "invoke",
+	typeInvokeSelf: "invoke.self", typeItemGet: "item.get", typeItemSet: "item.set",
+	typeAttrGet: "attr.get", typeAttrSet: "attr.set", typeSliceGet: "slice.get", typeSliceSet: "slice.set",
+	typeAdd: "add", typeSubtract: "sub", typeMultiply: "mul", typeDivide: "div", typeModulus: "mod",
+	typeExponentiation: "pow", typeNullCoalescing: "nullCoalescing", typeCompLT: "comp.lt",
+	typeCompLE: "comp.le", typeCompEQ: "comp.eq", typeCompNE: "comp.ne", typeCompGE: "comp.ge",
+	typeCompGT: "comp.gt", typeBitwiseAnd: "&", typeBitwiseOr: "|", typeLogicAnd: "and", typeLogicOr: "or",
+	typeNegation: "neg", typePositive: "pos", typeDiceInit: "dice.init", typeDiceSetTimes: "dice.setTimes",
+	typeDiceSetKeepLowNum: "dice.setKeepLow", typeDiceSetKeepHighNum: "dice.setKeepHigh",
+	typeDiceSetDropLowNum: "dice.setDropLow", typeDiceSetDropHighNum: "dice.setDropHigh",
+	typeDiceSetMin: "dice.setMin", typeDiceSetMax: "dice.setMax", typeDice: "dice", typeCustomDice: "dice.custom",
+	typeDiceCocPenalty: "coc.penalty", typeDiceCocBonus: "coc.bonus", typeDiceFate: "dice.fate",
+	typeDiceWod: "dice.wod", typeWodSetInit: "wod.init", typeWodSetPool: "wod.pool", typeWodSetPoints: "wod.points",
+	typeWodSetThreshold: "wod.threshold", typeWodSetThresholdQ: "wod.thresholdQ", typeDiceDC: "dice.dc",
+	typeDCSetInit: "dc.setInit", typeDCSetPool: "dc.setPool", typeDCSetPoints: "dc.setPoints", typeHalt: "halt",
+	typeDetailMark: "mark.detail", typePop: "pop", typePopN: "popn", typeNop: "nop", typeJmp: "jmp", typeJe: "je",
+	typeJne: "jne", typeJeDup: "je.dup", typeReturn: "ret", typeFStringBlockPush: "fstr.block.push",
+	typeFStringBlockPop: "fstr.block.pop", typeBlockPush: "block.push", typeBlockPop: "block.pop",
+	typeStSetName: "st.set", typeStModify: "st.mod", typeStX0: "st.x0", typeStX1: "st.x1",
+}
+
+func verifRenderCode(code []ByteCode, n int) []VerifOp {
+	if n > len(code) {
+		n = len(code)
+	}
+	out := make([]VerifOp, 0, n)
+	for i := 0; i < n; i++ {
+		c := code[i]
+		op := VerifOp{T: int(c.T), Name: verifOpNames[c.T]}
+		if op.Name == "" {
+			op.Name = "@raw"
+		}
+		switch v := c.Value.(type) {
+		case nil:
+			op.Nil = true
+		case IntType:
+			op.HasInt, op.Int = true, int64(v)
+		case string:
+			op.HasStr, op.Str = true, v
+		case *VMValue:
+			op.Body = v
+			if v == nil {
+				op.Nil = true
+			}
+		case BufferSpan:
+			op.Span = [2]int64{int64(v.Begin), int64(v.End)}
+		case StInfo:
+			op.HasStr, op.Str = true, v.Op
+		}
+		out = append(out, op)
+	}
+	return out
+}
+
+// VerifCode lists the compiled top-level program of the context.
+func (ctx *Context) VerifCode() []VerifOp {
+	return verifRenderCode(ctx.code, ctx.codeIndex)
+}
+
+// VerifValueCode lists the precompiled body of a function or computed value
+// (ok=false when the value has no compiled body).
+func VerifValueCode(v *VMValue) ([]VerifOp, bool) {
+	if v == nil {
+		return nil, false
+	}
+	switch v.TypeId {
+	case VMTypeFunction:
+		fd, _ := v.ReadFunctionData()
+		if fd == nil || fd.code == nil {
+			return nil, false
+		}
+		return verifRenderCode(fd.code, fd.codeIndex), true
+	case VMTypeComputedValue:
+		cd, _ := v.ReadComputed()
+		if cd == nil || cd.code == nil {
+			return nil, false
+		}
+		return verifRenderCode(cd.code, cd.codeIndex), true
+	}
+	return nil, false
+}
+
+// VerifResetForRerun clears the per-evaluation counters that Parse resets, so
+// that RunAfterParsed can be repeated on already-parsed code.
+func (ctx *Context) VerifResetForRerun() {
+	ctx.NumOpCount = 0
+	ctx.detailCache = ""
+	ctx.DetailSpans = nil
+	ctx.Error = nil
+}
+
+// VerifParsedInput returns the source text of the last Parse.
+func (ctx *Context) VerifParsedInput() string {
+	if ctx.parser == nil {
+		return ""
+	}
+	return string(ctx.parser.data)
+}
+
+// VerifSeedGlobal reseeds the package-level generator.
+func VerifSeedGlobal(seed uint64) { randSource.Seed(seed) }
+
+// VerifGlobalSource exposes the package-level generator (identity checks).
+func VerifGlobalSource() *rand.PCGSource { return randSource }
+
+// VerifParseErrorLanguage reads the package-level language selector.
+func VerifParseErrorLanguage() int { return parseErrorLanguage }
+
+func VerifRoll32(src *rand.PCGSource, n int) int     { return _roll32(src, n) }
+func VerifRoll64(src *rand.PCGSource, n int64) int64 { return _roll64(src, n, 0) }
+func VerifBuiltinNames() []string                    { return verifSortedKeys(builtinValues) }
+func verifSortedKeys(m map[string]*VMValue) (out []string) {
+	for k := range m {
+		out = append(out, k)
+	}
+	sort.Strings(out)
+	return
+}
+
+// VerifMapEntry is the internal state of one key of a ValueMap.
+type VerifMapEntry struct {
+	Key       string
+	InRead    bool
+	InDirty   bool
+	SameEntry bool   // read and dirty hold the same entry object
+	ReadP     string // "nil" | "expunged" | "val"
+	DirtyP    string
+}
+
+// VerifMapState is a canonical rendering of a ValueMap's internal state.
+type VerifMapState struct {
+	Entries  []VerifMapEntry
+	Amended  bool
+	DirtyNil bool
+	Misses   int
+}
+
+func verifEntryP(e *entryValueMap) string {
+	p := atomic.LoadPointer(&e.p)
+	switch {
+	case p == nil:
+		return "nil"
+	case p == unsafe.Pointer(expungedValueMap):
+		return "expunged"
+	}
+	return "val"
+}
+
+// VerifDump renders the internal state (must not race with other users).
+func (m *ValueMap) VerifDump() VerifMapState {
+	read, _ := m.read.Load().(readOnlyValueMap)
+	st := VerifMapState{Amended: read.amended, DirtyNil: m.dirty == nil, Misses: m.misses}
+	keys := map[string]bool{}
+	for k := range read.m {
+		keys[k] = true
+	}
+	for k := range m.dirty {
+		keys[k] = true
+	}
+	var ks []string
+	for k := range keys {
+		ks = append(ks, k)
+	}
+	sort.Strings(ks)
+	for _, k := range ks {
+		e := VerifMapEntry{Key: k}
+		re, rok := read.m[k]
+		de, dok := m.dirty[k]
+		e.InRead, e.InDirty = rok, dok
+		e.SameEntry = rok && dok && re == de
+		if rok {
+			e.ReadP = verifEntryP(re)
+		}
+		if dok {
+			e.DirtyP = verifEntryP(de)
+		}
+		st.Entries = append(st.Entries, e)
+	}
+	return st
+}
